@@ -1,65 +1,65 @@
 /-
 C13 — Search is colour-symmetric.
 
-Proved so far (all scores, unbounded payloads): negation is an involution that reverses the
-score order, and the two search policies (`White`: maximise, window updates `alpha`; `Black`:
-minimise, window updates `beta`) are exact duals under it.  The statement for the whole search,
-`search (mirror b) = neg (search b)` per completed depth, is decided on every run by the
-metamorphic oracle on the implementation (both searches are also tied to the model exactly).
+`Props/C13/Basic.lean`: negation reverses the score order and the two search policies are exact
+duals under it.  This file: the statement for the whole search, for every well-formed position
+without a promotion move at the root, with empty repetition history — and the two facts it is
+assembled from: a completed deepening pass reports the plain-minimax value of the root whatever
+the move order (`pass_exact`), and plain minimax is colour-symmetric (`rootValue_mirror`).
+
+`searchPasses b tf k` lists the (depth, score) of the passes the search with expiry index `k`
+completes; `Proofs.Minimax.search_reports` (Proofs/Minimax/Exact.lean, audited with this file) ties it to
+what `search` returns: the last completed pass, or the initial values if none completed.  `Board.mirror` swaps the colours and
+flips the ranks (Spec/Mirror.lean); `abs_mirror` says it is the colour mirror of the rules.
 -/
-import ChessVerif.Props.C14
-import ChessVerif.Model.Engine
-import ChessVerif.Spec.ScoreNeg
+import ChessVerif.Props.C13.Basic
+import ChessVerif.Proofs.Minimax.Final
 
 namespace Chess.Props.C13
-open Chess Chess.Spec Chess.Gen.ScoreFns Chess.Engine
+open Chess Chess.Spec Chess.Engine Chess.MoveGen
 
-theorem neg_neg (a : Score) : negScore (negScore a) = a := by
-  cases a <;> simp [negScore]
+/-- **C13**: whenever the search of a position and the search of its mirror image both complete
+depth `d` (any two expiry indices), the reported scores are negations of each other: a white mate
+in n becomes a black mate in n, a numeric score changes sign -/
+theorem search_mirror (b : Board) (hwf : b.WF = true)
+    (hnp : ∀ m ∈ mvsOf (legals b), m.piece = none) (k k' d : Nat) (s s' : Score)
+    (h : (d, s) ∈ searchPasses b [] k) (h' : (d, s') ∈ searchPasses b.mirror [] k') :
+    s' = negScore s :=
+  Proofs.Minimax.search_mirror b hwf hnp k k' d s s' h h'
 
-/-- negation reverses the order: `cmp (neg a) (neg b) = cmp b a` -/
-theorem neg_antitone (a b : Score) : cmp (negScore a) (negScore b) = cmp b a := by
-  rw [C14.cmp_eq_spec, C14.cmp_eq_spec]
-  cases a <;> cases b <;> simp [negScore, scoreCmp, scoreKey, lexCmp] <;> grind
+/-- **alpha-beta is exact**: a pass that no poll cuts short reports the plain-minimax value of the
+root, whatever the order of the moves and the previous best move -/
+theorem pass_exact (b : Board) (hwf : b.WF = true) (tf : ThreeFold) (k depth : Nat)
+    (bestMv : Option Move) (st st' : St) (p : Pass)
+    (hnp : ∀ m ∈ mvsOf (legals b), m.piece = none)
+    (hb : ∀ m, bestMv = some m → m ∈ mvsOf (legals b))
+    (h : pass k b b.turn tf depth bestMv st = (some p, st')) :
+    p.score = rootValue b tf depth ∧ (∀ m, p.best = some m → m ∈ mvsOf (legals b)) :=
+  Proofs.Minimax.pass_exact b hwf tf k depth bestMv st st' p hnp hb h
 
-/-- the sentinels swap -/
-theorem neg_worst (c : Color) : negScore (worst c) = worst c.flip := by cases c <;> rfl
+theorem searchPasses_exact (b : Board) (hwf : b.WF = true) (tf : ThreeFold) (k : Nat)
+    (hnp : ∀ m ∈ mvsOf (legals b), m.piece = none) :
+    ∀ ds ∈ searchPasses b tf k, ds.2 = rootValue b tf ds.1 :=
+  Proofs.Minimax.searchPasses_exact b hwf tf k hnp
 
-/-- `is_better` of one policy is `is_better` of the other on negated scores -/
-theorem isBetter_dual (c : Color) (s n : Score) :
-    isBetter c.flip (negScore s) (negScore n) = isBetter c s n := by
-  cases c <;>
-    simp only [isBetter, Color.flip, Score.lt, Score.gt, partialCmp, neg_antitone] <;>
-    rw [C14.cmp_swap n s] <;> cases cmp s n <;> rfl
+/-- **plain minimax is colour-symmetric** -/
+theorem rootValue_mirror (b : Board) (hwf : b.WF = true) (depth : Nat) :
+    rootValue b.mirror [] depth = negScore (rootValue b [] depth) :=
+  Proofs.Minimax.rootValue_mirror b hwf depth
 
-theorem neg_max (a b : Score) : negScore (Score.maxS a b) = Score.minS (negScore a) (negScore b) := by
-  unfold Score.maxS Score.minS Score.lt
-  simp only [partialCmp, neg_antitone]
-  have hs := C14.cmp_swap b a
-  cases h : cmp a b
-  · rw [h] at hs; simp [hs, Ordering.swap]
-  · have := (C14.cmp_eq_iff a b).mp h; subst this; simp
-  · rw [h] at hs; simp [hs, Ordering.swap]
+/-- the mirrored board is well formed and is the colour mirror of the rules' position -/
+theorem mirror_WF (b : Board) (h : b.WF = true) : b.mirror.WF = true := Proofs.BoardSym.mirror_WF b h
+theorem abs_mirror (b : Board) (hp : b.raw.partitionOk = true) (hc : b.castle < 16) :
+    abs b.mirror = (abs b).mirror := Proofs.BoardSym.abs_mirror b hp hc
 
-theorem neg_min (a b : Score) : negScore (Score.minS a b) = Score.maxS (negScore a) (negScore b) := by
-  unfold Score.maxS Score.minS Score.lt
-  simp only [partialCmp, neg_antitone]
-  have hs := C14.cmp_swap b a
-  cases h : cmp a b
-  · rw [h] at hs; simp [hs, Ordering.swap]
-  · have := (C14.cmp_eq_iff a b).mp h; subst this; simp
-  · rw [h] at hs; simp [hs, Ordering.swap]
+/-- the evaluation and the move generator under the mirror -/
+theorem eval_mirror (b : Board) (h : b.WF = true) : eval b.mirror = negScore (eval b) :=
+  Proofs.BoardSym.eval_mirror b h
+theorem legals_mirror (b : Board) (h : b.WF = true) :
+    (mvsOf (legals b.mirror)).Perm ((mvsOf (legals b)).map Move.mirror) := Proofs.BoardSym.legals_mirror b h
 
-/-- `update_cutoff` of one policy is `update_cutoff` of the other with the window negated and swapped -/
-theorem updateCutoff_dual (c : Color) (alpha beta s : Score) :
-    updateCutoff c.flip (negScore beta) (negScore alpha) (negScore s) =
-      ((negScore (updateCutoff c alpha beta s).2), (negScore (updateCutoff c alpha beta s).1)) := by
-  cases c <;> simp [updateCutoff, Color.flip, neg_max, neg_min]
-
-/-- the cutoff test `beta <= alpha` is invariant under negating and swapping the window -/
-theorem cutoff_dual (alpha beta : Score) :
-    Score.le (negScore alpha) (negScore beta) = Score.le beta alpha := by
-  unfold Score.le
-  simp only [partialCmp, neg_antitone]
+/-- non-vacuity: the standard position is well formed and has no promotion move -/
+example : Board.standard.WF = true ∧ ∀ m ∈ mvsOf (legals Board.standard), m.piece = none := by
+  decide +kernel
 
 end Chess.Props.C13
